@@ -872,6 +872,10 @@ class Interp:
                 if name == "setdefault":
                     obj[SymKey(args[0])] = dflt
                 return dflt
+            if isinstance(obj, dict) and name in ("setdefault", "get", "pop") and args and not _has_sym(args[0]):
+                return m(*args, **kwargs)  # concrete key; the stored value may be symbolic
+            if isinstance(obj, list) and name == "append":
+                return m(*args)
             if any(isinstance(a, V) for a in args):
                 h = interp.theories.get("__pymethod__")
                 if h:
